@@ -39,6 +39,10 @@ func init() {
 			foreignCAProbe(r)
 			return
 		}
+		if len(rp.Ops) > 0 && strings.HasPrefix(rp.Ops[0], "tls ca-follows-restart") {
+			caFollowsListenerRestart(r)
+			return
+		}
 		c30ops(r, raw)
 	}
 }
@@ -288,8 +292,57 @@ func tlsOracle(r *Result, ops, impl []string) {
 
 func mustAtoi(s string) int { v, _ := strconv.Atoi(s); return v }
 
+// caFollowsListenerRestart: "clients presenting a certificate that chains to the configured CA" — the CA the
+// configuration names when the listener is started. An operator retires a CA by replacing the CAFile's content and
+// restarting the listener (Unexport, Export): the restarted listener trusts the new content and nothing else.
+func caFollowsListenerRestart(r *Result) {
+	p := newPKI()
+	defer os.RemoveAll(p.dir)
+	tc := &absnfs.TLSConfig{Enabled: true, CertFile: filepath.Join(p.dir, "srv.pem"), KeyFile: filepath.Join(p.dir, "srv.key"),
+		MinVersion: tls.VersionTLS12, MaxVersion: tls.VersionTLS13, ClientAuth: tls.RequireAndVerifyClientCert, CAFile: filepath.Join(p.dir, "ca.pem")}
+	n, err := absnfs.New(NewRefFS(), absnfs.ExportOptions{TLS: tc})
+	must(err)
+	defer n.Close()
+	if err := n.Export("/", 0); err != nil {
+		r.Notes = append(r.Notes, "ca-follows-restart skipped: "+err.Error())
+		return
+	}
+	r.noteCase("tls ca-follows-restart", true)
+	r.count("ca-follows-restart")
+	ops := []string{"tls ca-follows-restart: Export with RequireAndVerifyClientCert and CAFile=CA-1; CAFile rewritten with CA-2; Unexport; Export"}
+	port := absnfs.VerifExportPort(n)
+	if ok, _, _ := p.dial(port, tls.VersionTLS13, &p.clientCA); !ok {
+		n.Unexport()
+		r.Notes = append(r.Notes, "ca-follows-restart skipped: the first listener does not serve a client signed by the configured CA")
+		return
+	}
+	// CA-2 and a client it signed
+	ca2PEM, _, ca2Cert, ca2Key := genCert("verif-ca-2", nil, nil, true)
+	c2, k2, _, _ := genCert("client-signed-by-ca-2", ca2Cert, ca2Key, false)
+	client2, _ := tls.X509KeyPair(c2, k2)
+	must(os.WriteFile(filepath.Join(p.dir, "ca.pem"), ca2PEM, 0o600))
+	n.Unexport()
+	if err := n.Export("/", 0); err != nil {
+		r.Notes = append(r.Notes, "ca-follows-restart: second Export failed: "+err.Error())
+		return
+	}
+	defer n.Unexport()
+	port = absnfs.VerifExportPort(n)
+	for _, v := range []uint16{tls.VersionTLS12, tls.VersionTLS13} {
+		if ok, _, _ := p.dial(port, v, &p.clientCA); ok {
+			r.violate(Violation{Class: "C30/retired-ca-still-trusted", What: fmt.Sprintf("after the CAFile was replaced and the listener restarted, a client whose certificate chains to the RETIRED CA is served (TLS %#x)", v), Ops: ops})
+			return
+		}
+		if ok, _, _ := p.dial(port, v, &client2); !ok {
+			r.violate(Violation{Class: "C30/configured-ca-not-trusted", What: fmt.Sprintf("after the CAFile was replaced and the listener restarted, a client whose certificate chains to the configured CA is refused (TLS %#x)", v), Ops: ops})
+			return
+		}
+	}
+}
+
 func checkC30(r *Result, rng *rand.Rand, thorough bool) {
 	foreignCAProbe(r)
+	caFollowsListenerRestart(r)
 	r.Rule = "all 25 MinVersion x MaxVersion combinations in {unset, 1.0, 1.1, 1.2, 1.3} (Validate decision compared), every accepted one started as a real server and dialled by clients forcing 1.0, 1.1, 1.2 and 1.3 (crypto/tls default minimum lowered with tls10server=1); ClientAuth 0..4 x {no cert, self-signed, CA-signed} with a NULL call after the handshake; certificate rotation through GetExportOptions().TLS.ReloadCertificates(), right after Listen and after an UpdateExportOptions round trip; finite space, enumerated completely; every case non-trivial"
 	vers := []int{0, tls.VersionTLS10, tls.VersionTLS11, tls.VersionTLS12, tls.VersionTLS13}
 	var ops []string
